@@ -46,6 +46,11 @@ def bounded(pb, interp, rng, tier):
     # wide dynamic range in one array: near-ties far below one ulp of the largest count, next to small values
     for top in (2.0 ** 40, -(2.0 ** 40), 2.0 ** 51):
         cases.append([(0.0, 0.3), (top, 0.1), (top, 0.1 + 1e-6), (-2.0, -0.8), (top, 0.1 - 1e-6), (5.0, 0.0), (top / 2, 0.25), (1.0, 0.5)])
+    # near-ties one quarter-ulp apart at large counts and fractions beyond 1/4 (the cycle count rounds to a
+    # half-integer there), and the two sides of a half-integer
+    cases.append([(2.0 ** 51, 0.3125 + 2.0 ** -54), (2.0 ** 51, 0.3125), (2.0 ** 51, 0.3125 - 2.0 ** -54)])
+    cases.append([(2.0 ** 50, -0.4375), (2.0 ** 50, -0.4375 + 2.0 ** -54), (7.0, 0.5 - 2.0 ** -54), (7.0, 0.5 - 2.0 ** -53)])
+    cases.append([(3.0, -0.5), (2.0, 0.49999999999999994), (2.0, 0.5), (3.0, -0.49999999999999994)])
     for row in cases:
         try:
             p = Phase(np.array([c for c, f in row]), np.array([f for c, f in row]))
@@ -65,8 +70,6 @@ def bounded(pb, interp, rng, tier):
                 continue
             for i, j in itertools.product(range(n), range(n)):
                 d = ex[i] - ex[j]
-                if d != 0 and abs(d) < EPS:
-                    continue        # below the resolution of the representation: unconstrained
                 if bool(got[i, j]) != op(ex[i], ex[j]):
                     fail("Phase.__array_ufunc__", f"compare.{opn}", f"{row[i]} vs {row[j]}", f"got {bool(got[i, j])}")
                     break
@@ -74,7 +77,7 @@ def bounded(pb, interp, rng, tier):
         def well_separated(vals):
             s = sorted(vals)
             return all(b - a >= EPS or b == a for a, b in zip(s, s[1:]))
-        if well_separated(ex):
+        if True:      # "decided on the exact two-part value": any two distinct representable values are ordered
             try:
                 am, aM = int(p.argmin()), int(p.argmax())
                 if ex[am] != min(ex) or ex[aM] != max(ex):
@@ -95,6 +98,8 @@ def bounded(pb, interp, rng, tier):
                     if not np.all(v["int"] == np.rint(v["int"])) or np.any(np.abs(v["frac"]) > 0.5):
                         fail("Phase.min", "reduction.not-normalised", f"count {row[0][0]}", repr(q)[:80])
                 # 2-d, along each axis
+                if len(row) < 6:
+                    continue
                 p2 = Phase(np.array([c for c, f in row[:6]]).reshape(2, 3), np.array([f for c, f in row[:6]]).reshape(2, 3))
                 e2 = np.array(exact_arr(p2), dtype=object).reshape(2, 3)
                 for axis in (0, 1):
@@ -105,9 +110,27 @@ def bounded(pb, interp, rng, tier):
                         fail("Phase.argmin", f"argmin.axis{axis}", f"count {row[0][0]}", str(a))
             except Exception as e:
                 fail("Phase.argmin", "reduction.raises", f"count {row[0][0]}", f"{type(e).__name__}: {str(e)[:100]}")
+    # the two sides of a half-integer held in the two different normal forms (n+1, -1/2) and (n, 1/2 - 2^-54)
+    try:
+        a, b = Phase(2.5), Phase(2.5, -7e-17)
+        ea, eb = exact_arr(a)[0], exact_arr(b)[0]
+        ev += 1
+        distinct.add("half-integer-forms")
+        if ea != eb:
+            import operator as _op
+            for opn, op in (("eq", _op.eq), ("ne", _op.ne), ("lt", _op.lt), ("le", _op.le), ("gt", _op.gt), ("ge", _op.ge)):
+                if bool(op(a, b)) != op(ea, eb) or bool(op(b, a)) != op(eb, ea):
+                    fail("Phase.__array_ufunc__", f"compare.{opn}", "Phase(2.5) vs Phase(2.5, -7e-17)", f"stored {np.asarray(a.view(np.ndarray))} vs {np.asarray(b.view(np.ndarray))}: got {bool(op(a, b))}/{bool(op(b, a))}")
+                    break
+    except Exception as e:
+        fail("Phase.__array_ufunc__", "compare.raises", "Phase(2.5) vs Phase(2.5, -7e-17)", f"{type(e).__name__}: {e}")
     # ------------------------------------------------------------------ decimal rendering
     vals = [(0.0, 0.0), (3.0, 0.0), (3.0, 0.125), (-3.0, -0.125), (12345678901.0, 0.3), (2.0 ** 52 - 1, 0.4999999999999999),
-            (7.0, 0.5), (7.0, -0.5), (0.0, 1e-17), (0.0, -1e-9), (-1.0, 0.25), (99.0, 0.2499999), (5.0, 0.05), (5.0, 0.95), (0.0, 0.999999 - 1)]
+            (7.0, 0.5), (7.0, -0.5), (0.0, 1e-17), (0.0, -1e-9), (-1.0, 0.25), (99.0, 0.2499999), (5.0, 0.05), (5.0, 0.95), (0.0, 0.999999 - 1),
+            (-1.0, 0.0), (-12345.0, 0.0), (-7.0, -0.0)]
+    # fractions stored with the sign opposite to the phase: the renderer adds 1 to them in double precision
+    vals_opposite = [(1.0, -0.45), (-482509.0, 0.415), (26.0, -2.0788963701966078e-13), (1.0, -1e-20)]
+    vals = vals + vals_opposite
     for c, f in vals:
         try:
             p = Phase(c, f)
@@ -121,7 +144,7 @@ def bounded(pb, interp, rng, tier):
             s = str(p.to_string())
             v, im = dec_value(s)
             if im or abs(v - ex) > Fraction(1, 10 ** 16):
-                fail("Phase.to_string", "to_string.value", f"({c},{f})", f"{s!r} is off by {float(v - ex):.2e}")
+                fail("Phase.to_string", "to_string.value" + (".opposite-sign-fraction" if (c, f) in vals_opposite else ""), f"({c},{f})", f"{s!r} is off by {float(v - ex):.2e}")
             back = Phase.from_string(s)
             # rendering is only promised to 1e-16 cycles, so the round trip is exact up to that
             if abs(exact_arr(back)[0] - ex) > Fraction(1, 10 ** 16) or bool(back.imaginary):
@@ -142,8 +165,8 @@ def bounded(pb, interp, rng, tier):
                 digits = s.split(".")[1] if "." in s else ""
                 if prec > 0 and len(digits.rstrip("j")) != prec:
                     fail("Phase.to_string", "fixed-point.digits", f"({c},{f}) {what}", repr(s))
-                if abs(v - ex) > half + Fraction(1, 10 ** 17):
-                    fail("Phase.to_string", "fixed-point.value", f"({c},{f}) {what}", f"{s!r} vs exact {float(ex)!r}")
+                if abs(v - ex) > half:
+                    fail("Phase.to_string", "fixed-point.value" + (".opposite-sign-fraction" if (c, f) in vals_opposite else ""), f"({c},{f}) {what}", f"{s!r} vs exact {float(ex)!r}")
     # ------------------------------------------------------------------ decimal parsing over the grammar
     digs = ["", "0", "5", "19", "905"]
     fracs = [None, "", "0", "5", "01", "950"]
